@@ -292,6 +292,18 @@ func (a *Async) step() {
 			}
 		}
 		if len(cand) > 0 {
+			// preferably a node that has committed itself already: silenced, it follows the others to the next view with
+			// its commit stored, and when re-enabled there it must not commit itself to anything else
+			var locked []*Node
+			for _, n := range cand {
+				if n.D.CommitPayloads[n.D.MyIndex] != nil || n.D.PreCommitPayloads[n.D.MyIndex] != nil {
+					locked = append(locked, n)
+				}
+			}
+			if len(locked) > 0 && a.pct("fliplocked", 70) {
+				cand = locked
+				w.Stat("watch_flag_set_on_committed_node")
+			}
 			n := cand[a.r("flipnode", len(cand))]
 			n.WatchFlag = true
 			a.flipped = true
